@@ -174,6 +174,18 @@ func Tiny() {
 	s4third = "k"
 }
 
+// Alt switches all scenario inputs to programs of the same shapes with different identifier spellings,
+// literals and comments (used to see whether package-level state depends on what was processed).
+func Alt() {
+	srcA = "let result = alpha OP beta * gamma; callee(`tpl`, 'quoted')\n// trailing note"
+	srcB = "total = - - delta\n(handler)(42)\n// remark\nreturn"
+	srcC = "PRE count BANG + 17; if (count) other BANG"
+	srcD = "function compute(value) { if (value) { return - -value } // why\n return [value, {key: `text`}] }\nlet answer = compute(9) + 33"
+	srcE = "for (let index = 10; index < 12; index++) { weight += index }"
+	s2in = [3]string{"alpha OP beta * gamma; { function inner() { return alpha } }", "PRE item BANG; { item2; { item3 } }", "let queue = [7, 8] OP 9; callee(function() { { inner2 } })"}
+	s4third = "omega = sigma + lambda"
+}
+
 var s2in = [3]string{"a OP b * c; { function f() { return a } }", "PRE x BANG; { y; { z } }", "let q = [1, 2] OP 3; f(function() { { w } })"}
 var s4third = "alpha = beta + gamma"
 
